@@ -11,7 +11,7 @@
      inverse   : Some(X) => A*X = I; over a field None => A singular
      modsolve  : p-adic solver: Some(X) => A*X = B; None only for systems whose determinants have a common factor > 1
      field     : Z/61: canonical residues of arbitrary integers and the field operations *)
-EXTENDS ModArith, Json, IOUtils
+EXTENDS ModArith, PGraph, Json, IOUtils
 Rec == ndJsonDeserialize(IOEnv.TRACE)
 VARIABLES l, rseen
 Init == l = 1 /\ rseen = <<>> /\ Assert(PrimesOK, "prime table")
@@ -128,9 +128,17 @@ BaryDigits(e) == LET RECURSIVE S(_,_) S(i, k) == IF i = 0 THEN 0 ELSE BigDigits(
 BaryOK(e) == /\ \A k \in 1..e.dim : e.pos[1][k].n.s = 0                                   \* first vertex at the origin
              /\ \A i \in 1..Len(e.verts), k \in 1..e.dim : e.pos[i][k].q.s = 1
              /\ \A j \in 1..NPrimesFor(BaryDigits(e) + 8) : \A i \in 1..Len(e.verts), k \in 1..e.dim : BaryEq(e, i, k, PRIMES[j])
+(* --- periodic graphs as data structures (PGraph.tla): beyond the listed properties, conformance level (NOTE) --- *)
+Tri(x) == <<x[1], x[2], x[3]>>
+PGraphConf(e) == LET E == EdgesOf([k \in 1..Len(e.input) |-> Tri(e.input[k])]) IN
+   /\ [k \in 1..Len(e.edges) |-> Tri(e.edges[k])] = E
+   /\ e.verts = VerticesOf(E) /\ e.gdim = e.dim
+   /\ \A i \in 1..Len(e.verts) : [k \in 1..Len(e.inc[i]) |-> Tri(e.inc[i][k])] = Incidences(E, e.verts[i])
 Check(e) == CASE e.ev = "det" -> DetOK(e) [] e.ev = "rank" -> RankOK(e) [] e.ev = "nullspace" -> NullOK(e)
               [] e.ev = "solve" -> SolveOK(e) [] e.ev = "inverse" -> InverseOK(e) [] e.ev = "modsolve" -> ModSolveOK(e)
-              [] e.ev = "field" -> FieldOK(e) [] e.ev = "barycentric" -> BaryOK(e) [] e.ev = "echelon" -> TRUE [] OTHER -> FALSE
+              [] e.ev = "field" -> FieldOK(e) [] e.ev = "barycentric" -> BaryOK(e) [] e.ev = "echelon" -> TRUE
+              [] e.ev = "pgraph" -> (IF PGraphConf(e) THEN TRUE ELSE PrintT(<<"NOTE", "periodic graph differs from PGraph.tla", e.input>>))
+              [] OTHER -> FALSE
 IsRefusal(e) == e.ev = "modsolve" /\ "panic" \notin DOMAIN e /\ ~e.some
 Next == /\ l <= Len(Rec)
         /\ ("panic" \notin DOMAIN Rec[l] /\ Check(Rec[l])) = TRUE
